@@ -322,31 +322,42 @@ func (c *compiler) compileType(y *Type, parent Leafable, isUnion bool) error {
 	}
 
 	if y.format == val.FmtEnum || y.format == val.FmtEnumList {
+		// RFC 7950 9.6.4.2: a stated value is kept; otherwise one greater than the
+		// highest value so far, the first enum defaulting to zero
 		y.enum = make(val.EnumList, len(y.enums))
-		nextId := 0
+		highest := 0
 		for i, item := range y.enums {
-			if item.val > 0 {
-				nextId = item.val
-			} else {
-				item.val = nextId
+			if !item.valSet && item.val <= 0 {
+				if i == 0 {
+					item.val = 0
+				} else {
+					item.val = highest + 1
+				}
+			}
+			if i == 0 || item.val > highest {
+				highest = item.val
 			}
 			y.enum[i] = val.Enum{
-				Id:    nextId,
+				Id:    item.val,
 				Label: item.ident,
 			}
-			nextId++
 		}
 	}
 
 	if y.format == val.FmtBits || y.format == val.FmtBitsList {
-		nextPos := 0
-		for _, item := range y.bits {
-			if item.Position > 0 {
-				nextPos = item.Position
-			} else {
-				item.Position = nextPos
+		// RFC 7950 9.7.4.2: same rule as enum values
+		highest := 0
+		for i, item := range y.bits {
+			if !item.positionSet && item.Position <= 0 {
+				if i == 0 {
+					item.Position = 0
+				} else {
+					item.Position = highest + 1
+				}
 			}
-			nextPos++
+			if i == 0 || item.Position > highest {
+				highest = item.Position
+			}
 		}
 	}
 
